@@ -2,5 +2,5 @@ CONSTANTS Max = 3  Walk = FALSE  WalkLen = 0
 CONSTANT Pairs <- PairsPre  Scheds2 <- S2  SchedsP <- SP
 INIT Init
 NEXT NextI
-VIEW View
+VIEW ViewM
 INVARIANTS InvPoolPre InvClaims InvOwed
